@@ -69,7 +69,44 @@ def check_rmw_atomic(prog, cls_name, method, field):
         return False, (f"accesses of self.{field} outside any lock-protected region at lines {sorted(set(outside))} "
                        f"(locks of the class: {sorted(locks)})"), {"lines": sorted(set(ln for ln, _, _ in acc)),
                                                                     "outside": sorted(set(outside))}
-    return True, f"all {len(acc)} accesses under self.{sorted(common)[0]}", None
+    # all accesses hold the lock - but they must also lie in ONE atomic region: a value of the field carried in a local
+    # from one `with` block into a store of the field in another block is a read-modify-write that other threads can
+    # interleave with (seed C16-16: "roll the counter back" after a failed join)
+    regions = []          # (With node, [stmts])
+    def walk(node):
+        if isinstance(node, ast.With) and any(isinstance(it.context_expr, ast.Attribute) and it.context_expr.attr in common
+                                              for it in node.items):
+            regions.append(node)
+            return
+        for ch in ast.iter_child_nodes(node):
+            walk(ch)
+    walk(fi.node)
+    def mentions_field(n):
+        return any(isinstance(x, ast.Attribute) and x.attr == field and isinstance(x.value, ast.Name) and x.value.id == "self"
+                   for x in ast.walk(n))
+    touching = [r for r in regions if mentions_field(r)]
+    if len(touching) > 1:
+        for a in touching:
+            tainted = set()
+            for n in ast.walk(a):
+                if isinstance(n, (ast.Assign, ast.AnnAssign)) and n.value is not None and mentions_field(n.value):
+                    tgts = n.targets if isinstance(n, ast.Assign) else [n.target]
+                    tainted |= {t.id for t in tgts if isinstance(t, ast.Name)}
+            for b in touching:
+                if b is a:
+                    continue
+                for n in ast.walk(b):
+                    if isinstance(n, (ast.Assign, ast.AugAssign)):
+                        tgts = n.targets if isinstance(n, ast.Assign) else [n.target]
+                        if any(isinstance(t, ast.Attribute) and t.attr == field for t in tgts) and \
+                                any(isinstance(x, ast.Name) and x.id in tainted for x in ast.walk(n.value)):
+                            return False, (f"self.{field} is read in the atomic region at line {a.lineno} and a value derived "
+                                           f"from that read is stored back in ANOTHER atomic region at line {n.lineno}: the "
+                                           f"read-modify-write is not atomic (identifiers drawn in between are handed out again)"), \
+                                {"read_region": a.lineno, "write_line": n.lineno}
+        return None, (f"self.{field} is accessed in {len(touching)} separate atomic regions of {cls_name}.{method}; "
+                      f"the one-region rule does not apply to this shape"), None
+    return True, f"all {len(acc)} accesses under self.{sorted(common)[0]}, in one atomic region", None
 
 
 # ---- deterministic line scheduler (replay only) ------------------------------------------------------
